@@ -389,6 +389,7 @@ fn go_diff(e: &ExpGo, a: &ExpGo) -> String {
 
 pub fn judge_line(rep: &Reporter, line: &str, stats: &[AtomicU64; 3]) {
     let exp = ref_parse(line);
+    rep.sample(|| json!({"line": line, "reference": format!("{:?}", exp).chars().take(200).collect::<String>()}));
     let got = guarded(|| CommandParser::new(line).parse());
     let case = |extra: Value| json!({"kind": "uci_line", "line": line, "expected": format!("{:?}", exp).chars().take(300).collect::<String>(), "detail": extra});
     let got = match got {
